@@ -68,7 +68,8 @@ CheckGeneric(it, kind, viaUcs, svc, segs, data, routeSegs) ==
     ELSE IF ~SegsEq(segs, IntentPath(it)) THEN "C14:path"
     ELSE IF it.connected = 1 \/ viaUcs THEN
          (IF data # it.data THEN "C14:data"
-          ELSE IF viaUcs /\ it.hasroute = 1 /\ ~SegsEq(routeSegs, it.routesegs) THEN "C14:route"
+          ELSE IF viaUcs /\ it.hasroute = 1 /\ ~SegsEq(routeSegs, it.routesegs)
+               THEN (IF Opt(it, "cfgroute", 0) = 1 THEN "C14:route+C15:route-in-message+C09:route-meaning" ELSE "C14:route")   \* route_path=True: the configured route
           ELSE "")
     ELSE \* direct UCMM: the encoded route (size, reserved, segments) follows the request data by design
          IF it.hasroute = 0 THEN (IF data = it.data THEN "" ELSE "C14:data")
@@ -159,7 +160,11 @@ Dispatch(m, svc, segs, data, cap, choice, kind, viaUcs, routeSegs) ==
         ELSE IF c # "" THEN ObjR(c, <<>>, m)
         ELSE ObjR("", MRReply(svc, 0, <<>>, x.reply), [m1 EXCEPT !.slc = x.tab, !.slcIdx = @ + 1])
     ELSE IF cls = 1 /\ inst = 1 /\ svc = 1 /\ ~Has(m.ident, "none") THEN
-        ObjR("", MRReply(svc, 0, <<>>, IdentityCore(m.ident)), [m1 EXCEPT !.last = [k |-> "identity"]])
+        \* get_module_info(slot): an Unconnected Send along the configured route with its last hop replaced by backplane/slot
+        IF m.call.api = "get_module_info" /\ Has(m.call.intent, "slot")
+           /\ (~viaUcs \/ ~SegsEq(routeSegs, (IF m.route = <<>> THEN <<>> ELSE SubSeq(m.route, 1, Len(m.route) - 1)) \o <<Port(1, <<m.call.intent.slot>>)>>))
+        THEN ObjR("C16:module-route+C15:module-route+C09:route-meaning", <<>>, m)
+        ELSE ObjR("", MRReply(svc, 0, <<>>, IdentityCore(m.ident)), [m1 EXCEPT !.last = [k |-> "identity"]])
     ELSE IF cls = 139 /\ inst = 1 /\ svc = 3 /\ m.hasclock THEN
         ObjR("", MRReply(svc, 0, <<>>, LE(1, 2) \o LE(11, 2) \o LE(0, 2) \o m.clock), [m1 EXCEPT !.last = [k |-> "clock"]])
     ELSE IF cls = 139 /\ inst = 1 /\ svc = 4 /\ m.hasclock THEN
@@ -209,7 +214,7 @@ TxStep0(m, ev) ==
             ELSE LET cp == ParsePadded(fo.cpath) IN
             IF ~cp.ok THEN Bad(m, "C09:parse")
             ELSE IF ~(Len(cp.segs) >= 2 /\ SegsEq(SubSeq(cp.segs, Len(cp.segs) - 1, Len(cp.segs)), <<Seg("class", 2), Seg("instance", 1)>>)) THEN Bad(m, "C09:meaning")
-            ELSE IF ~SegsEq(SubSeq(cp.segs, 1, Len(cp.segs) - 2), m.route) THEN Bad(m, "C15:route-in-forward-open")
+            ELSE IF ~SegsEq(SubSeq(cp.segs, 1, Len(cp.segs) - 2), m.route) THEN Bad(m, "C15:route-in-forward-open+C09:route-meaning")
             ELSE IF fo.large /\ ~m.extended THEN Bad(m, "C10:fo-order")
             ELSE IF ~fo.large /\ m.extended /\ ~m.largeRefused THEN Bad(m, "C10:fo-order")
             ELSE IF fo.large /\ fo.size # m.cfgsize THEN Bad(m, "C10:fo-size+C04:negotiated-size")
@@ -303,7 +308,8 @@ NamesStatusT(texts, err, st) ==
 TagTruthy(tg) == tg.truthy = 1
 RetStep(m, ev) ==
     LET api == ev.api IN
-    IF api = "construct" THEN Bad(m, "C15:rejected-valid")                 \* scenarios only use path strings of the grammar
+    IF api = "_env" THEN Good(m)
+    ELSE IF api = "construct" THEN Bad(m, "C15:rejected-valid")                 \* scenarios only use path strings of the grammar
     ELSE IF ev.outcome = "hang" THEN Bad(m, "C10:hang")
     ELSE IF ev.outcome = "exc" /\ ev.pycomm = 0 THEN Bad(m, "C10:foreign-exception+C13:foreign-exception")
     ELSE IF api \in {"close", "exit"} /\ ev.connected # 0 THEN Bad(m, "C10:close-state")
@@ -374,6 +380,7 @@ Step(m, ev) ==
            Good([m EXCEPT !.call = [api |-> ev.api, intent |-> ev.intent], !.nIntent = 0, !.last = [k |-> "none"], !.ntx = 0, !.corrupted = FALSE,
                           !.slcPre = m.slc, !.slcIdx = 0,
                           !.inClose = ev.api \in {"close", "exit"}, !.closeFault = FALSE,
+                          !.policy = IF ev.api = "_env" THEN ev.intent.policy ELSE @,         \* the target's admission policy changes
                           !.lx = LxCall(m.lx, ev)])
       [] ev.k = "socknew" -> Good(m)
       [] ev.k = "connect" -> IF m.host # <<>> /\ ev.host # MkS(m.host) THEN Bad(m, "C15:host")
